@@ -167,6 +167,12 @@ func returnsFreshOrReset(fn *ssa.Function) bool {
 	})
 	var okVal func(v ssa.Value, at *ssa.BasicBlock, seen map[ssa.Value]bool) bool
 	okVal = func(v ssa.Value, at *ssa.BasicBlock, seen map[ssa.Value]bool) bool {
+		// zeroed under this very name (`if rv == nil { rv = &T{} }; rv.reset(); return rv`: the name is a phi)
+		for _, st := range zeroStores {
+			if st.addr == v && (st.at.Block() == at || st.at.Block().Dominates(at)) {
+				return true
+			}
+		}
 		switch x := v.(type) {
 		case *ssa.Alloc:
 			return true
@@ -412,7 +418,7 @@ func ruleR12() *Rule {
 				if zero == nil {
 					for _, cs := range callSites(fn) {
 						callee := staticCallee(cs)
-						if callee == nil || !c.p.InZap(callee) || len(cs.Common().Args) == 0 || cs.Common().Args[0] != ssa.Value(prm) {
+						if callee == nil || !c.p.InZap(callee) || len(cs.Common().Args) == 0 || !valueMayBe(cs.Common().Args[0], prm) {
 							continue
 						}
 						if z := resetHelper(callee); z != nil {
@@ -586,4 +592,28 @@ func isZeroConst(k *ssa.Const) bool {
 		return true
 	}
 	return false
+}
+
+// valueMayBe: v is x, or a phi one of whose edges may be x (`if rv == nil { rv = &T{} }; rv.reset()`).
+func valueMayBe(v, x ssa.Value) bool {
+	seen := map[ssa.Value]bool{}
+	var rec func(v ssa.Value) bool
+	rec = func(v ssa.Value) bool {
+		if v == x {
+			return true
+		}
+		if seen[v] {
+			return false
+		}
+		seen[v] = true
+		if ph, ok := v.(*ssa.Phi); ok {
+			for _, e := range ph.Edges {
+				if rec(e) {
+					return true
+				}
+			}
+		}
+		return false
+	}
+	return rec(v)
 }
